@@ -28,13 +28,14 @@ DEPTH = {"quick": 4, "thorough": 5}
 def spec_of(root):
     n, edges, enc, unc = root["n"], [tuple(e) for e in root["edges"]], root["enc"], set(root.get("uncached", []))
     preds = [[j for (j, k) in edges if k == i] for i in range(n)]
+    z = "_space.z" if root.get("zref") == "attr" else "z"    # reference read by name / by attribute path
     if enc == "A":
-        cells = {"v": "lambda i: tick() + z + 1 + 7 * i + sum(v(j) for j in PREDS[i])"}
+        cells = {"v": "lambda i: tick() + %s + 1 + 7 * i + sum(v(j) for j in PREDS[i])" % z}
         refs = {"PREDS": {"list": preds}, "z": 0}
     else:
         cells = {}
         for i in range(n):
-            body = " + ".join(["tick()", "z", str(1 + 7 * i)] + ["e%d()" % j for j in preds[i]])
+            body = " + ".join(["tick()", z, str(1 + 7 * i)] + ["e%d()" % j for j in preds[i]])
             cells["e%d" % i] = {"src": "lambda: " + body, "cached": i not in unc}
         refs = {"z": 0}
     return {"refs": {"tick": "<tick>"}, "spaces": {"S": {"refs": refs, "cells": cells}}}
@@ -139,6 +140,16 @@ def run_history(root, hist):
             for e, h in before.items():
                 if h["is_input"] and (e not in after or not after[e]["is_input"] or after[e]["value"] != h["value"]):
                     bad("inputs-refchange", {"lost": list(e)}, "inputs survive reference changes")
+            if not viols:
+                # whatever is still held after the reference change is current (reference value)
+                for e, h in sorted(after.items()):
+                    if h["is_input"]:
+                        continue
+                    r = rt.tree(h["inst"], h["c"], h["key"])
+                    if r[0] != "ok" or render(r[1]) != h["value"]:
+                        bad("value-refchange", {"elem": list(e), "held": h["value"]},
+                            {"reference": render(r[1]) if r[0] == "ok" else "raises"})
+                        break
             break
         # ---- value edits -----------------------------------------------------------------
         edited = set()
@@ -233,11 +244,20 @@ def roots(tier):
             for recalc in (False, True):
                 out.append({"n": n, "edges": edges, "enc": "A", "uncached": [], "recalc": recalc})
                 out.append({"n": n, "edges": edges, "enc": "B", "uncached": [], "recalc": recalc})
+                if n <= 2 or len(edges) == n - 1:
+                    out.append({"n": n, "edges": edges, "enc": "B", "uncached": [], "recalc": recalc, "zref": "attr"})
+                    if not recalc:
+                        out.append({"n": n, "edges": edges, "enc": "A", "uncached": [], "recalc": recalc, "zref": "attr"})
                 if n >= 2 and edges:
                     for u in range(n):
                         # an uncached element is interesting only if it has a dependent
                         if any(j == u for (j, k) in edges):
                             out.append({"n": n, "edges": edges, "enc": "B", "uncached": [u], "recalc": recalc})
+    if tier == "quick":
+        # longer chains: a 4-chain and a 4-diamond (dependents two and three levels away)
+        for edges in ([[0, 1], [1, 2], [2, 3]], [[0, 1], [0, 2], [1, 3], [2, 3]]):
+            for enc in ("A", "B"):
+                out.append({"n": 4, "edges": edges, "enc": enc, "uncached": [], "recalc": False, "deep": True})
     return out
 
 
@@ -260,6 +280,15 @@ def run_item(item, tier):
     def enabled(hist, info):
         return alphabet
     depth = DEPTH[tier] if root["n"] <= 2 else DEPTH[tier] - 1
+    if root.get("deep"):
+        # quick tier: n=4 chain / diamond from the warm state (all elements evaluated first), value edits only
+        alphabet = [o for o in alphabet if o["op"] != "set_input" or o["v"] < 200]
+        q_all = [o for o in alphabet if o["op"] == "q"]
+        res = bfs.explore(rh, enabled, len(q_all) + 2, prefix=q_all)
+        res.samples = [{"root": root, "history": h} for h in res.samples[:1]]
+        out = res.as_item_result()
+        out["counts"]["edits_with_dependents_discarded"] = nt[0]
+        return out
     res = bfs.explore(rh, enabled, depth, prefix=[item["first"]] if "first" in item else [])
     res.samples = [{"root": root, "history": h} for h in res.samples[:1]]
     out = res.as_item_result()
